@@ -279,7 +279,14 @@ where
         });
         if s != t {
             ans.put("all_simple_paths", enc, || {
-                let mut p: Vec<Vec<usize>> = all_simple_paths::<Vec<_>, _, RandomState>(g, v.id(s), v.id(t), 0, Some(3)).take(5000).map(|p| p.into_iter().map(l).collect()).collect();
+                // on a multigraph every path is yielded once per choice of parallel edges: the number of
+                // items is the same on every encoding, but a cut-off prefix is not - so a capped
+                // enumeration is reported as such instead of being compared as a set
+                const CAP: usize = 300_000;
+                let mut p: Vec<Vec<usize>> = all_simple_paths::<Vec<_>, _, RandomState>(g, v.id(s), v.id(t), 0, Some(3)).take(CAP).map(|p| p.into_iter().map(l).collect()).collect();
+                if p.len() == CAP {
+                    return format!("at least {CAP} paths (not compared)");
+                }
                 p.sort();
                 p.dedup();
                 format!("{p:?}")
